@@ -162,6 +162,11 @@ def _sf2(args):
     except Exception as e:
         import traceback
         logging.warn(e)
+        # the other stripes may be (or may come to be) waiting for this one at
+        # the barrier: break it so that they fail too instead of waiting for
+        # ever, and the parent's get() can raise
+        if barrier is not None:
+            barrier.abort()
         raise Exception("".join(traceback.format_exception(*sys.exc_info())))
 
 
@@ -441,6 +446,11 @@ def filter_mc_sharemem(filename, step_size, box_size, cores, shape,
             logging.error("Caught keyboard interrupt")
             pool.close()
             exit = True
+        except Exception:
+            # a stripe failed, so all of them have returned: don't leave the
+            # (repopulated) pool behind
+            pool.terminate()
+            raise
         else:
             pool.close()
             pool.join()
